@@ -1,4 +1,6 @@
 import FedjaxVerif.Model.Proto
+import FedjaxVerif.Handlers.C15
+import FedjaxVerif.Handlers.C04
 import FedjaxVerif.Handlers.C03
 import FedjaxVerif.Handlers.C02
 import FedjaxVerif.Handlers.C01
@@ -6,7 +8,7 @@ import FedjaxVerif.Handlers.C01
 open FedjaxVerif
 
 def handlers : List (String → List Val → Option Val) :=
-  [Handlers.C03.handle, Handlers.C02.handle, Handlers.C01.handle]
+  [Handlers.C03.handle, Handlers.C02.handle, Handlers.C01.handle, Handlers.C04.handle, Handlers.C15.handle]
 
 def answer (line : String) : String :=
   match parseLine line with
